@@ -205,11 +205,26 @@ func (sh *shaper) of1(v ssa.Value) *Shape {
 		return unknown("non-string constant")
 	case *ssa.BinOp:
 		if x.Op == token.ADD && isStringType(x.Type()) {
+			// two variables assigned together on every way (`tag, body = "n:", digits` … `tag + body`): the pairs
+			// that arrive over the same edge, not every tag with every body
+			if px, ok := x.X.(*ssa.Phi); ok {
+				if py, ok := x.Y.(*ssa.Phi); ok && px.Block() == py.Block() && len(px.Edges) == len(py.Edges) && px != py {
+					var alts []*Shape
+					for i := range px.Edges {
+						alts = append(alts, concat(sh.of(px.Edges[i]), sh.of(py.Edges[i])))
+					}
+					return alt(alts...)
+				}
+			}
 			return concat(sh.of(x.X), sh.of(x.Y))
 		}
 	case *ssa.Phi:
 		var inits, pieces []*Shape
-		for _, e := range x.Edges {
+		skip := placeholderEdges(x)
+		for i, e := range x.Edges {
+			if skip[i] {
+				continue // the "" that travels with ok == false, where the text is only used under ok
+			}
 			es := sh.of(e)
 			ps, ok := selfPieces(es, x)
 			if ok {
@@ -2176,6 +2191,11 @@ func (a *A) numericKindsRule(fn *ssa.Function) {
 
 // sameNumberClass: tagged is concat(const tag, num) and c is the constant tag+<decimal number>.
 func sameNumberClass(tagged, c *Shape) bool {
+	// the digits alone, next to a constant that is a number (the tag in front of both: `"n:" {NUM | "0"}`)
+	if tagged.K == "num" && c.K == "const" {
+		_, err := strconv.ParseFloat(c.S, 64)
+		return err == nil
+	}
 	if tagged.K != "concat" || len(tagged.Sub) != 2 || tagged.Sub[0].K != "const" || tagged.Sub[1].K != "num" || c.K != "const" {
 		return false
 	}
@@ -2185,4 +2205,63 @@ func sameNumberClass(tagged, c *Shape) bool {
 	}
 	_, err := strconv.ParseFloat(c.S[len(tag):], 64)
 	return err == nil
+}
+
+
+// placeholderEdges: x is the text of a (text, ok) pair that came back from a helper folded into its caller
+// (`digits, isNumber = "", false` on the refusing ways): the edges on which the sibling boolean of the same block is
+// the constant false and x is a constant, when every use of x lies under `if ok`. Those values are never used.
+func placeholderEdges(x *ssa.Phi) map[int]bool {
+	out := map[int]bool{}
+	for _, in := range x.Block().Instrs {
+		b, ok := in.(*ssa.Phi)
+		if !ok {
+			break
+		}
+		if b == x || !isBool(b.Type()) || len(b.Edges) != len(x.Edges) {
+			continue
+		}
+		// the branch on b
+		var yes *ssa.BasicBlock
+		for _, r := range *b.Referrers() {
+			if iff, ok := r.(*ssa.If); ok && iff.Cond == ssa.Value(b) {
+				yes = iff.Block().Succs[0]
+			}
+		}
+		if yes == nil || len(yes.Preds) != 1 {
+			continue
+		}
+		under := true
+		for _, r := range *x.Referrers() {
+			if ph, isPhi := r.(*ssa.Phi); isPhi {
+				// carried on into another variable: used where the edge comes from
+				for i, e := range ph.Edges {
+					if e == ssa.Value(x) {
+						if p := ph.Block().Preds[i]; p != yes && !yes.Dominates(p) {
+							under = false
+						}
+					}
+				}
+				continue
+			}
+			if r.Block() != yes && !yes.Dominates(r.Block()) {
+				under = false
+			}
+		}
+		if !under {
+			continue
+		}
+		for i := range x.Edges {
+			kb, isKb := b.Edges[i].(*ssa.Const)
+			_, isKx := x.Edges[i].(*ssa.Const)
+			if isKb && isKx && kb.Value != nil && kb.Value.Kind() == constant.Bool && !constant.BoolVal(kb.Value) {
+				out[i] = true
+			}
+		}
+		if len(out) > 0 && len(out) < len(x.Edges) {
+			return out
+		}
+		out = map[int]bool{}
+	}
+	return out
 }
